@@ -1,6 +1,18 @@
 #!/usr/bin/env python3
 """tools/runseeded.py <Cxx> <dir>  — for every <dir>/<k>/patch.diff: apply to /repo, run ./check Cxx, restore; print caught/missed."""
-import subprocess,sys,os,json,glob
+# EVIDENCE-SAVE: a check run against a mutated /repo must not leave its evidence file behind
+import shutil,subprocess,sys,os,json,glob
+
+def run_check(pr):
+    import os
+    ev='/verif/evidence/%s.json'%pr; bak='/tmp/.evidence-%s-%d.json'%(pr,os.getpid())
+    had=os.path.exists(ev)
+    if had: shutil.copy(ev,bak)
+    try:
+        return subprocess.run(['/verif/check',pr],capture_output=True,text=True)
+    finally:
+        if had: shutil.move(bak,ev)
+        elif os.path.exists(ev): os.remove(ev)
 prop,d=sys.argv[1],sys.argv[2]
 extra=sys.argv[3:]  # other props to also run
 for k in sorted(os.listdir(d)):
@@ -13,7 +25,7 @@ for k in sorted(os.listdir(d)):
     try:
         res=[]
         for pr in [prop]+extra:
-            c=subprocess.run(['/verif/check',pr],capture_output=True,text=True)
+            c=run_check(pr)
             v=[l for l in c.stdout.splitlines() if l.startswith('VIOLATION')]
             res.append('%s:%s%s'%(pr,'CAUGHT' if c.returncode==1 else 'missed',' (no-failing-input)' if v and all('no-failing-input-found' in x for x in v) else ''))
         meta=json.load(open(os.path.join(d,k,'meta.json'))) if os.path.exists(os.path.join(d,k,'meta.json')) else {}
@@ -21,3 +33,5 @@ for k in sorted(os.listdir(d)):
     finally:
         subprocess.run(['git','-C','/repo','checkout','--','.'])
         subprocess.run(['git','-C','/repo','clean','-fdq'])
+
+
